@@ -54,13 +54,13 @@ FAMILY = {
 
 def ops_of(evs):
     """[(begin index, end index or None, events)] for every operation of a scenario trace"""
-    out, cur = [], None
+    out, cur = [], {}
     for i, e in enumerate(evs):
         if e["ev"] == "begin":
-            cur = [i, None]
-            out.append(cur)
-        elif e["ev"] in ("end", "crash") and cur is not None and cur[1] is None:
-            cur[1] = i
+            cur[e["proc"]] = [i, None]
+            out.append(cur[e["proc"]])
+        elif e["ev"] in ("end", "crash") and cur.get(e["proc"]) is not None and cur[e["proc"]][1] is None:
+            cur[e["proc"]][1] = i          # (operations of different processes overlap: pair by process)
     return [(b, e if e is not None else len(evs) - 1) for b, e in out]
 
 
@@ -79,7 +79,7 @@ def kf_triggers(evs):
         be = evs[b]
         fl = be["flags"]
         pre = be["state"]
-        calls = [x for x in evs[b + 1:e + 1] if x["ev"] == "call"]
+        calls = [x for x in evs[b + 1:e + 1] if x["ev"] == "call" and x["proc"] == be["proc"]]
         ended = evs[e]["ev"] == "end"
         ok = ended and evs[e]["ok"]
         injs = [x for x in calls if x["inj"]]
@@ -235,7 +235,7 @@ def explains(kf, name, evs, b, e):
     if kf == "KF-L5-obsolete-resource-errors-swallowed":
         lib = vlib.CHARTS.get(be.get("chart", ""), {"res": {}, "hooks": {}})
         new_ids = set(lib["res"]) if be["op"] != "rollback" else set()
-        injs = [x for x in evs[b:e + 1] if x["ev"] == "call" and x["inj"]]
+        injs = [x for x in evs[b:e + 1] if x["ev"] == "call" and x["inj"] and x["proc"] == be["proc"]]
         # the rejected call addressed an object that is not part of the new manifest (obsolete resource)
         return all(x["kind"] == "res" and x["verb"] in ("GET", "DELETE") and (be["op"] == "rollback" or x["id"] not in new_ids)
                    for x in injs)
